@@ -298,6 +298,9 @@ def run(ctx: Ctx):
         if why:
             ctx.report("C05 oracle: " + why, {"scenario": sc, "after": o.get("after")})
     ctx.coverage["oracle"]["scenarios"] = ms
+    # C: constructor calls (dataclass): fix is reported iff the comparison fails; Model/CallAssign.v
+    from .. import callassign as ca
+    ca.check_part(ctx, 150 if not ctx.thorough else 2000, "C05")
     ctx.sample({"case": cases[0], "test": obs[0].get("source"), "after": obs[0].get("after")})
     ctx.sample({"case": cases[1], "observation": {k: obs[1].get(k) for k in ("results", "missing", "incorrect", "reported", "value")}})
 
@@ -310,6 +313,9 @@ def classify(case, obs):
 
 
 def replay(ctx: Ctx, data):
+    if isinstance(data.get("case"), dict) and data["case"].get("kind") == "call":
+        from .. import callassign as ca
+        return ca.replay_case(data["case"])
     if "scenario" in data["case"]:
         sc = data["case"]["scenario"]
         sc["flags"] = tuple(sc["flags"])
